@@ -14,7 +14,10 @@ def impl_compile(zdir: Path, rel: str, text: str, today):
 
     p = zdir / rel
     p.parent.mkdir(parents=True, exist_ok=True)
-    p.write_text(text)
+    if isinstance(text, bytes):
+        p.write_bytes(text)
+    else:
+        p.write_text(text)
     errs = []
     orig = _api.ErrorManager.syntaxError
 
